@@ -83,6 +83,9 @@ def mapRemove (m : Store K V) (k : K) : Option (Entry V) × Store K V := (lookup
 /-- `map.values()` -/
 def values (m : Store K V) : List (Entry V) := m.map (·.2)
 
+/-- `deque.pop_front()` -/
+def popFront {α : Type} (l : List α) : Option α × List α := (l.head?, l.tail)
+
 /-- `deque.pop_back()` -/
 def popBack {α : Type} (l : List α) : Option α × List α := (l.getLast?, l.dropLast)
 
